@@ -369,3 +369,45 @@ func Select(hasDefault bool, cases ...Case) int {
 	cases[s.chosen].finish()
 	return s.chosen
 }
+
+// Offer is a non-blocking send that may be used from kernel context (a timer
+// event): the value goes to a waiting receiver or into the buffer; if neither
+// is possible it is dropped and false is returned (what the runtime's timers
+// do with their one-slot channels). It is not a scheduling point.
+func (c *Chan[T]) Offer(v T) bool {
+	if c == nil || c.closed {
+		return false
+	}
+	for len(c.recvq) > 0 {
+		r := c.recvq[0]
+		c.recvq = c.recvq[1:]
+		if r.sel != nil && !r.sel.claim(r.idx) {
+			continue
+		}
+		r.val, r.ok, r.done = v, true, true
+		Ready(r.t)
+		return true
+	}
+	if len(c.buf) < c.cap {
+		c.buf = append(c.buf, v)
+		return true
+	}
+	return false
+}
+
+// RecvSel is the receive arm of a rewritten select statement: after Select
+// chose it, Val and Ok hold what `v, ok := <-c` would have delivered.
+type RecvSel[T any] struct {
+	recvCase[T]
+	Val T
+	Ok  bool
+}
+
+// RecvOf is `case ... <-c` of a select statement.
+func RecvOf[T any](c *Chan[T]) *RecvSel[T] {
+	r := &RecvSel[T]{}
+	r.c = c
+	r.dst = &r.Val
+	r.ok = &r.Ok
+	return r
+}
